@@ -198,12 +198,22 @@ func (s *Sim) Quiesce() {
 	// three forced reconciles must be write-free
 	before := s.Store.Mutations
 	writesBefore := s.writeCalls()
+	recsBefore := len(s.Recs)
 	for i := 0; i < 3; i++ {
 		s.Resync(KSet)
 		s.runWorkersToCompletion(budget)
 		for _, k := range cacheKinds {
 			for s.Deliver(k) {
 			}
+		}
+	}
+	for _, rec := range s.Recs[recsBefore:] {
+		if known, failed := rec.Failed(); known && failed && !rec.Crashed {
+			last := "no call"
+			if n := len(rec.Calls); n > 0 {
+				last = rec.Calls[n-1].Verb + " " + rec.Calls[n-1].Kind.String()
+			}
+			s.violate("C02", "C02.not-quiet", "retry-loop after "+last, fmt.Sprintf("at the fixed point with no faults a reconcile of %s still fails and is retried for ever (last call: %s)", rec.Key, last))
 		}
 	}
 	if w := s.writeCalls(); w != writesBefore || s.Store.Mutations != before {
@@ -333,9 +343,6 @@ func (s *Sim) fixedPointDefect(set *asv1.StatefulSet) string {
 	r := specReplicas(set)
 	if set.Status.Replicas != r || set.Status.ReadyReplicas != r {
 		return fmt.Sprintf("status: replicas=%d ready=%d want %d", set.Status.Replicas, set.Status.ReadyReplicas, r)
-	}
-	if set.Status.ObservedGeneration != set.Generation {
-		return fmt.Sprintf("status: observedGeneration=%d generation=%d", set.Status.ObservedGeneration, set.Generation)
 	}
 	return ""
 }
